@@ -8,6 +8,11 @@ from excel2pycl.src.translators.abstract_translator import AbstractTranslator
 
 
 class LambdaTokenTranslator(AbstractTranslator):
+    @staticmethod
+    def _without_escapes(text: str) -> str:
+        # a criterion without a live wildcard is compared as text: ~? ~* ~~ stand for the characters ? * ~
+        return re.sub(r'~([?*~])', r'\1', text)
+
     @classmethod
     def translate(cls, token: LambdaToken, excel: Excel, context: Context) -> str:
         from excel2pycl.src.translators.expression_token_translator import ExpressionTokenTranslator
@@ -36,20 +41,23 @@ class LambdaTokenTranslator(AbstractTranslator):
                 if re.fullmatch(r'(\d+)((\.)(\d+))?(e(-?\d+))?', operand):
                     condition_value = operand
                 elif operand:
-                    condition_value = repr(operand)
+                    condition_value = repr(cls._without_escapes(operand))
                 else:
                     condition_value = expression if expression else repr('')
             else:
                 if expression:
                     condition_value = expression
+                elif isinstance(literal_value, str):
+                    condition_value = repr(cls._without_escapes(literal_value))
         else:
             condition_value = expression
 
         if getattr(getattr(token.expression, 'left_operand', None), 'value', None) \
                 and isinstance(token.expression.left_operand.value[0], PatternToken):
+            # the pattern describes the whole cell, whatever its case
             return context.set_sub_cell(
                 token.in_cell,
-                f'lambda x: re.match(self._regexp({condition_value}), str(x))'
+                f'lambda x: re.fullmatch(self._regexp({condition_value}), str(x), re.IGNORECASE | re.DOTALL)'
             )
 
         # an ordering criterion (">5") never accepts a text cell; comparing a text with a number would raise
